@@ -27,6 +27,7 @@ package http
 //@ modifies iterOf
 //@ ensures [fields-as-configured] result.Method == req.Method && result.URI == req.URI && result.Name == req.Name && result.Tag == req.Tag && result.Body == req.Body && result.Headers == req.Headers && result.Preprocessor == req.Preprocessor && result.Postprocessors == req.Postprocessors
 //@ ensures [always-has-a-templater] result.Templater != nil && imp(req.Templater != nil, result.Templater == req.Templater)
+//@ ensures [a-request-without-a-templater-gets-its-own] imp(req.Templater == nil, calls(templater.NewTextTemplater) == 1 && result.Templater == box(result_of(templater.NewTextTemplater, 0)))
 
 // Scenarios are listed weight/gcd times each, in the order of the description.
 //@ func decodeAmmo
